@@ -133,7 +133,9 @@ let parse_value (d : dty) (s : string) : value =
     | DOpt t -> let c = peek () in incr pos;
       (match c with 'N' -> VNone | 'S' -> VSome (v t) | _ -> perr "value: option at %d" !pos)
     | DRes (a, b) -> let c = peek () in incr pos;
-      (match c with 'O' -> VOk (v a) | 'E' -> VErr (v b) | _ -> perr "value: result at %d" !pos)
+      (match c with 'O' -> VOk (v a) | 'E' -> VErr (v b)
+                  | 'U' -> VNone (* the unset prototype of a destination: holds no value *)
+                  | _ -> perr "value: result at %d" !pos)
     | DEnum alts ->
       eat 'V'; let ix = int_of_string ("0x" ^ token ()) in eat ':';
       (match List.assoc_opt ix alts with
@@ -232,3 +234,43 @@ let rec ty_kinds (d : dty) (acc : string list) : string list =
 
 let bytes_prefix (l : byte list) (k : int) : byte list =
   let rec go l k = if k <= 0 then [] else match l with [] -> [] | x :: r -> x :: go r (k - 1) in go l k
+
+(* ---------------------------------------------------------------- Gallina terms (vm_compute cross-check) *)
+let rec coq_ty (t : ty) : string =
+  match t with
+  | TU8 -> "TU8" | TU16 -> "TU16" | TU32 -> "TU32" | TU64 -> "TU64"
+  | TI8 -> "TI8" | TI16 -> "TI16" | TI32 -> "TI32" | TI64 -> "TI64"
+  | TUint -> "TUint" | TInt -> "TInt" | TBig -> "TBig" | TU128 -> "TU128" | TBool -> "TBool"
+  | TBytes -> "TBytes" | TStr -> "TStr"
+  | TOption a -> "(TOption " ^ coq_ty a ^ ")"
+  | TResult (a, b) -> "(TResult " ^ coq_ty a ^ " " ^ coq_ty b ^ ")"
+  | TEnum alts -> "(TEnum " ^ coq_tys alts ^ ")"
+  | TArray (k, a) -> Printf.sprintf "(TArray %d %s)" (int_of_nat k) (coq_ty a)
+  | TSlice a -> "(TSlice " ^ coq_ty a ^ ")"
+  | TMap (a, b) -> "(TMap " ^ coq_ty a ^ " " ^ coq_ty b ^ ")"
+  | TStruct fs -> "(TStruct " ^ coq_tys fs ^ ")"
+and coq_tys (fs : tys) : string =
+  match fs with
+  | TNil -> "TNil"
+  | TCons (tag, t, r) ->
+    Printf.sprintf "(TCons %s %s %s)" (match tag with None -> "None" | Some k -> "(Some " ^ coq_n k ^ ")") (coq_ty t) (coq_tys r)
+
+let rec coq_value (v : value) : string =
+  match v with
+  | VN k -> "(VN " ^ coq_n k ^ ")"
+  | VZ z -> "(VZ (" ^ (let s = hex_of_z z in if String.length s > 0 && s.[0] = '-' then "- 0x" ^ String.sub s 1 (String.length s - 1) else "0x" ^ s) ^ ")%Z)"
+  | VBool b -> if b then "(VBool true)" else "(VBool false)"
+  | VBytes l -> "(VBytes " ^ coq_bytes l ^ ")"
+  | VNone -> "VNone"
+  | VSome x -> "(VSome " ^ coq_value x ^ ")"
+  | VOk x -> "(VOk " ^ coq_value x ^ ")"
+  | VErr x -> "(VErr " ^ coq_value x ^ ")"
+  | VEnum (i, x) -> "(VEnum " ^ coq_n i ^ " " ^ coq_value x ^ ")"
+  | VList l -> "(VList " ^ coq_vals l ^ ")"
+  | VMap l -> "(VMap " ^ coq_kvals l ^ ")"
+and coq_vals = function
+  | VNil -> "VNil"
+  | VCons (x, r) -> "(VCons " ^ coq_value x ^ " " ^ coq_vals r ^ ")"
+and coq_kvals = function
+  | KNil -> "KNil"
+  | KCons (k, x, r) -> "(KCons " ^ coq_value k ^ " " ^ coq_value x ^ " " ^ coq_kvals r ^ ")"
